@@ -203,6 +203,108 @@ func ruleUTBHalfOpen(p *Prog, r *Report, c utbCfg, floor int) {
 	r.Floor(rule, n, floor)
 }
 
+// ruleUTBCursor: a marking call whose range starts at the cursor, mark(b.idx ± k, …), flags glyphs relative to the
+// position at which the decision was taken. No instruction that may move the cursor (a store to Buffer.idx, or a call whose
+// callees may write it: P-FX) lies on a path to the call inside the same iteration of the loop that contains it: after
+// nextGlyph / replaceGlyphs the cursor designates another glyph, and the glyphs already output are not in the range.
+func ruleUTBCursor(p *Prog, r *Report, fx *FX, c utbCfg, cursor string, floor int) {
+	const rule = "R-UTB/cursor"
+	mark := p.Func(c.pkg, c.buffer, c.mark)
+	fIdx := p.Field(c.pkg, c.buffer, cursor)
+	idx, okIdx := fx.index[fIdx]
+	if !okIdx {
+		undecided("R-UTB/cursor: %s.%s is not a tracked field", c.buffer, cursor)
+	}
+	pk := p.pkgPath(c.pkg)
+	fromCursor := func(v ssa.Value) bool {
+		for i := 0; i < 4; i++ {
+			switch x := v.(type) {
+			case *ssa.BinOp:
+				if _, isC := x.Y.(*ssa.Const); isC && (x.Op == token.ADD || x.Op == token.SUB) {
+					v = x.X
+					continue
+				}
+				return false
+			case *ssa.UnOp:
+				return x.Op == token.MUL && fieldOf(x.X) == fIdx
+			default:
+				return false
+			}
+		}
+		return false
+	}
+	moves := func(in ssa.Instruction) bool {
+		if storesField(in, fIdx) {
+			return true
+		}
+		if ci, ok := in.(ssa.CallInstruction); ok {
+			if _, isDefer := in.(*ssa.Defer); isDefer {
+				return false
+			}
+			for _, cal := range p.Callees(ci) {
+				if cal == mark {
+					continue
+				}
+				if w, ok := fx.mayW[cal]; ok && w.has(idx) {
+					return true
+				}
+			}
+		}
+		return false
+	}
+	n := 0
+	for _, f := range p.ModFns() {
+		if fnPkg(f) == nil || fnPkg(f).Path() != pk || f == mark {
+			continue
+		}
+		for _, call := range callsOf(f, mark) {
+			if !fromCursor(call.Common().Args[1]) {
+				continue
+			}
+			n++
+			key := fmt.Sprintf("%s/%s(cursor…)", p.FnName(f), c.mark)
+			r.Instance(rule, key)
+			var loops []*natLoop
+			for _, l := range naturalLoops(f) {
+				if l.blocks[call.Block()] {
+					loops = append(loops, l)
+				}
+			}
+			cutBack := func(from, to *ssa.BasicBlock) bool {
+				for _, l := range loops {
+					if to == l.header && l.blocks[from] {
+						return true
+					}
+				}
+				return false
+			}
+			bad := ""
+			for _, b := range f.Blocks {
+				for _, in := range b.Instrs {
+					if !moves(in) {
+						continue
+					}
+					// an instruction outside the loops that contain the call runs before the iteration starts
+					inLoops := true
+					for _, l := range loops {
+						if !l.blocks[b] {
+							inLoops = false
+						}
+					}
+					if !inLoops {
+						continue
+					}
+					if hit, _ := reachableFrom(p, f, after(in), func(x ssa.Instruction) bool { return x == ssa.Instruction(call) }, nil, cutBack); hit != nil {
+						bad = p.IPos(in)
+					}
+				}
+			}
+			r.Check(bad == "", rule, key, p.IPos(call), "the range starts at the cursor and nothing moves the cursor between the start of the iteration and this call"+pref(bad))
+		}
+	}
+	r.Floor(rule, n, floor)
+}
+
 func exprOf(v ssa.Value) string {
 	if v.Name() != "" {
 		if _, ok := v.(*ssa.Parameter); ok {
@@ -237,4 +339,9 @@ func controlsC18(cp *Prog, r *Report) {
 	cfg := utbCfg{pkg: "utb", buffer: "Buffer", mark: "unsafeToBreak", iter: "syllableIterator", next: "next", info: "GlyphInfo", syllable: "syllable"}
 	expectControl(r, "R-UTB/syllables", func(cr *Report) { ruleUTBSyllables(cp, cr, cfg, 4) }, "utb.setupBadNone", "utb.setupBadSkip", "utb.setupBadRange")
 	expectControl(r, "R-UTB/halfopen", func(cr *Report) { ruleUTBHalfOpen(cp, cr, cfg, 2) }, "utb.puaBad/unsafeToBreak(base, i)")
+	expectControl(r, "R-UTB/cursor", func(cr *Report) {
+		fx := NewFX(cp)
+		fx.Run()
+		ruleUTBCursor(cp, cr, fx, cfg, "idx", 2)
+	}, "utb.cursorBad/unsafeToBreak(cursor…)")
 }
